@@ -693,7 +693,7 @@ SMALL_MODELS = True      # switched off by the runner after a few failures in on
 
 
 _STRATEGIES = [
-    ('z3', None, 3000),
+    ('z3', None, 5000),
     ('z3:elim-term-ite+som', lambda: z3.Then('simplify', 'elim-term-ite', z3.With('simplify', som=True), 'smt'), None),
     ('z3:purify-arith', lambda: z3.Then('simplify', 'purify-arith', 'smt'), None),
     ('z3:som', lambda: z3.Then(z3.With('simplify', som=True, hoist_mul=False), 'smt'), None),
